@@ -69,13 +69,32 @@ func globCheckMain(args []string) int {
 			rep.Violations = append(rep.Violations, v)
 		}
 	}
+	// a case with "after": n is listed in the directory of case n (same path, same process), emptied and rebuilt
+	keep := map[int]bool{}
+	for _, id := range order {
+		if a := nint(cases[id], "after"); a != 0 {
+			keep[a] = true
+		}
+	}
+	dirOf := map[int]string{}
 	for _, id := range order {
 		c := cases[id]
-		dir, e := os.MkdirTemp("", "verif.glob.")
+		var dir string
+		var e error
+		if a := nint(c, "after"); a != 0 && dirOf[a] != "" {
+			dir = dirOf[a]
+			entries, _ := os.ReadDir(dir)
+			for _, en := range entries {
+				os.RemoveAll(filepath.Join(dir, en.Name()))
+			}
+		} else {
+			dir, e = os.MkdirTemp("", "verif.glob.")
+		}
 		if e != nil {
 			fmt.Fprintln(os.Stderr, e)
 			return 2
 		}
+		dirOf[id] = dir
 		nfiles := 0
 		for _, en := range nlist(c, "tree") {
 			p := filepath.Join(dir, segsToString(en["path"]))
@@ -129,7 +148,12 @@ func globCheckMain(args []string) int {
 				}
 			}
 		}
-		os.RemoveAll(dir)
+		if !keep[id] {
+			os.RemoveAll(dir)
+		}
+	}
+	for id := range keep {
+		os.RemoveAll(dirOf[id])
 	}
 	rep.WallS = time.Since(start).Seconds()
 	b, _ := json.MarshalIndent(rep, "", " ")
